@@ -13,6 +13,8 @@ import EAO.Driver.Prices
 import EAO.Driver.Linked
 import EAO.Driver.CoarseBuild
 import EAO.Driver.SplitBuild
+import EAO.Driver.Params
+import EAO.Driver.WrapWindow
 /-!
 Line-protocol driver: one JSON request per line on stdin, one JSON response per line on stdout.
 `{"ok": …}` or `{"err": "<class>"}`.  Unknown or ill-formed requests are answered with
@@ -22,7 +24,7 @@ operations it knows.
 open Lean EAO EAO.Driver
 
 def handlers : List (String → Json → Option (Except String Json)) :=
-  [handleCore, handleGrid, handleOrderBook, handleContract, handleStorage, handleSlp, handleCHP, handleScaled, handlePeriodic, handleSplit, handleState, handlePrices, handleLinked, handleCoarseBuild, handleSplitBuild]
+  [handleCore, handleGrid, handleOrderBook, handleContract, handleStorage, handleSlp, handleCHP, handleScaled, handlePeriodic, handleSplit, handleState, handlePrices, handleLinked, handleCoarseBuild, handleSplitBuild, handleParams, handleWrapWindow]
 
 def handle (j : Json) : Except String Json := do
   let op ← field j "op" Json.getStr?
